@@ -5,7 +5,6 @@
   are findings F2a / F2b, refuted in C17.lean).
 -/
 import Axelar.Props.C17
-import Axelar.Props.C05
 namespace Axelar.Props.C17
 open Axelar Axelar.ItsW Axelar.Its Codec
 
